@@ -135,6 +135,9 @@ type VC struct {
 	seenRef    map[string]bool
 	seenRefs   []string
 	boundNames []string // variables bound by the contract quantifiers being evaluated
+	loadCache  map[string]*loadEntry
+	nonlinear  bool // the code multiplies or divides by a non-constant
+	pruned     int  // contract cases left out because the solver showed they cannot apply
 	quantSides [][]string
 	immRefs    map[int][]string // per object type: references an immutable field has been read through
 	seenRefTid map[string]int // static struct type id of references to whole-object structs
@@ -359,18 +362,58 @@ func (vc *VC) loadLeaves(st *State, p PtrV, t types.Type) []string {
 	return out
 }
 
+type loadEntry struct {
+	v      Val
+	guards map[string]bool
+}
+
+// load reads a value of type t at p. Reading the same cells of the same memory version again gives
+// the value already named (memory versions are never redefined), so contracts that mention
+// db.Statement twenty times cost one load; the typed-memory fact is restated per path guard.
 func (vc *VC) load(st *State, p PtrV, t types.Type) Val {
 	if cv, ok := vc.constGlobalVals[p.ref]; ok && p.idx == "0" {
 		return cv
 	}
+	if vc.pure > 0 || os.Getenv("GVC_NOLOADCACHE") != "" {
+		leaves := vc.loadLeaves(st, p, t)
+		v, _ := unflatten(t, leaves)
+		vc.assume(st, vc.wf(st, v, t))
+		return v
+	}
+	key := st.mi + "|" + st.mr + "|" + p.ref + "|" + p.idx + "|" + types.TypeString(t, nil)
+	if vc.loadCache == nil {
+		vc.loadCache = map[string]*loadEntry{}
+	}
+	if e, ok := vc.loadCache[key]; ok {
+		if !e.guards[st.guard] {
+			e.guards[st.guard] = true
+			vc.assume(st, vc.wf(st, e.v, t))
+		}
+		return e.v
+	}
 	leaves := vc.loadLeaves(st, p, t)
 	v, _ := unflatten(t, leaves)
 	vc.assume(st, vc.wf(st, v, t))
+	vc.loadCache[key] = &loadEntry{v: v, guards: map[string]bool{st.guard: true}}
 	return v
 }
 
 type memStore struct {
 	parent, ref, idx, val string
+	row                   bool // val is a whole row: (store parent ref val)
+}
+
+// storeRow: mem with the whole row of object ref replaced. Recorded like single-cell stores so that
+// joins of memories that differ by havocked frames become guarded stores, not array-valued ites.
+func (vc *VC) storeRow(prefix, mem, ref, row string) string {
+	n := vc.def(prefix, memSort, fmt.Sprintf("(store %s %s %s)", mem, ref, row))
+	if vc.memInfo == nil {
+		vc.memInfo = map[string]memStore{}
+	}
+	if n != mem {
+		vc.memInfo[n] = memStore{parent: mem, ref: ref, val: row, row: true}
+	}
+	return n
 }
 
 func (vc *VC) store1(prefix, mem, ref, idx, val string) string {
@@ -378,7 +421,7 @@ func (vc *VC) store1(prefix, mem, ref, idx, val string) string {
 	if vc.memInfo == nil {
 		vc.memInfo = map[string]memStore{}
 	}
-	vc.memInfo[n] = memStore{mem, ref, idx, val}
+	vc.memInfo[n] = memStore{parent: mem, ref: ref, idx: idx, val: val}
 	return n
 }
 
@@ -430,6 +473,10 @@ func (vc *VC) mergeMem(prefix, ga, a, gb, b string) string {
 	apply := func(g string, ch []string, n int) {
 		for k := n - 1; k >= 0; k-- {
 			s := vc.memInfo[ch[k]]
+			if s.row {
+				cur = vc.storeRow(prefix, cur, s.ref, ite(g, s.val, fmt.Sprintf("(select %s %s)", cur, s.ref)))
+				continue
+			}
 			old := fmt.Sprintf("(select (select %s %s) %s)", cur, s.ref, s.idx)
 			cur = vc.store1(prefix, cur, s.ref, s.idx, ite(g, s.val, old))
 		}
@@ -748,19 +795,45 @@ func (vc *VC) havocAll(st *State, why string) {
 		vc.assume(st, fmt.Sprintf("(= (select %s %s) (select %s %s))", nmi, r, st.mi, r))
 		vc.assume(st, fmt.Sprintf("(= (select %s %s) (select %s %s))", nmr, r, st.mr, r))
 	}
-	// immutable fields (K3 lemma) survive every call
+	// immutable fields (K3 lemma) survive every call: one axiom per object type (all its immutable
+	// leaves together), plus ground instances for the objects already known by reference
+	byTid := map[int][]immLeaf{}
+	var tids []int
 	for _, im := range vc.eng.immutableLeaves {
-		mem, nmem := st.mi, nmi
-		if im.kind == 'r' {
-			mem, nmem = st.mr, nmr
+		if _, ok := byTid[im.tid]; !ok {
+			tids = append(tids, im.tid)
 		}
-		vc.assume(st, fmt.Sprintf("(forall ((r Int)) (! (=> (= (typ r) %d) (= (select (select %s r) %d) (select (select %s r) %d))) :pattern ((select %s r))))", im.tid, nmem, im.leaf, mem, im.leaf, nmem))
-		// ground instances for the objects already known by reference
+		byTid[im.tid] = append(byTid[im.tid], im)
+	}
+	sort.Ints(tids)
+	for _, tid := range tids {
+		same := func(r string) string {
+			var cs []string
+			for _, im := range byTid[tid] {
+				mem, nmem := st.mi, nmi
+				if im.kind == 'r' {
+					mem, nmem = st.mr, nmr
+				}
+				cs = append(cs, fmt.Sprintf("(= (select (select %s %s) %d) (select (select %s %s) %d))", nmem, r, im.leaf, mem, r, im.leaf))
+			}
+			return and(cs...)
+		}
+		pats := fmt.Sprintf("(select %s r)", nmi)
+		hasR := false
+		for _, im := range byTid[tid] {
+			if im.kind == 'r' {
+				hasR = true
+			}
+		}
+		if hasR {
+			pats += fmt.Sprintf(") :pattern ((select %s r)", nmr)
+		}
+		vc.assume(st, fmt.Sprintf("(forall ((r Int)) (! (=> (= (typ r) %d) %s) :pattern (%s)))", tid, same("r"), pats))
 		// parameters and call results first (they name the handles contracts talk about), then the most recent loads
 		var refs []string
 		other := 0
 		direct := map[string]bool{}
-		if ir := vc.immRefs[im.tid]; len(ir) > 0 {
+		if ir := vc.immRefs[tid]; len(ir) > 0 {
 			for k := len(ir) - 1; k >= 0 && len(refs) < 24; k-- {
 				refs = append(refs, ir[k])
 				direct[ir[k]] = true
@@ -768,7 +841,7 @@ func (vc *VC) havocAll(st *State, why string) {
 		}
 		for k := len(vc.seenRefs) - 1; k >= 0; k-- {
 			r := vc.seenRefs[k]
-			if vc.seenRefTid[r] != im.tid || direct[r] {
+			if vc.seenRefTid[r] != tid || direct[r] {
 				continue
 			}
 			if strings.HasPrefix(r, "arg_") || strings.HasPrefix(r, "ret_") || strings.HasPrefix(r, "fv_") {
@@ -781,7 +854,7 @@ func (vc *VC) havocAll(st *State, why string) {
 			}
 		}
 		for _, r := range refs {
-			vc.assume(st, fmt.Sprintf("(=> (= (typ %s) %d) (= (select (select %s %s) %d) (select (select %s %s) %d)))", r, im.tid, nmem, r, im.leaf, mem, r, im.leaf))
+			vc.assume(st, fmt.Sprintf("(=> (= (typ %s) %d) %s)", r, tid, same(r)))
 		}
 	}
 	oldTop := st.top
@@ -799,8 +872,8 @@ func (vc *VC) havocItems(st *State, items []frameItem, ghosts []string) {
 		case "obj":
 			ri := vc.fresh("row", "(Array Int Int)")
 			rr := vc.fresh("row", "(Array Int Int)")
-			st.mi = vc.def("MI", memSort, fmt.Sprintf("(store %s %s %s)", st.mi, it.ref, ri))
-			st.mr = vc.def("MR", memSort, fmt.Sprintf("(store %s %s %s)", st.mr, it.ref, rr))
+			st.mi = vc.storeRow("MI", st.mi, it.ref, ri)
+			st.mr = vc.storeRow("MR", st.mr, it.ref, rr)
 		case "range":
 			if it.width > 0 && it.width <= 64 {
 				// a statically known, small run of leaves: fresh values stored one by one (quantifier-free)
@@ -810,8 +883,8 @@ func (vc *VC) havocItems(st *State, items []frameItem, ghosts []string) {
 					ri = fmt.Sprintf("(store %s %s %s)", ri, add(it.lo, k), vc.fresh("hv", "Int"))
 					rr = fmt.Sprintf("(store %s %s %s)", rr, add(it.lo, k), vc.fresh("hv", "Int"))
 				}
-				st.mi = vc.def("MI", memSort, fmt.Sprintf("(store %s %s %s)", st.mi, it.ref, ri))
-				st.mr = vc.def("MR", memSort, fmt.Sprintf("(store %s %s %s)", st.mr, it.ref, rr))
+				st.mi = vc.storeRow("MI", st.mi, it.ref, ri)
+				st.mr = vc.storeRow("MR", st.mr, it.ref, rr)
 				continue
 			}
 			// finite ranges only: lo/hi constants apart
@@ -819,8 +892,8 @@ func (vc *VC) havocItems(st *State, items []frameItem, ghosts []string) {
 			rr := vc.fresh("row", "(Array Int Int)")
 			vc.assume(st, fmt.Sprintf("(forall ((j Int)) (! (=> (or (< j %s) (>= j %s)) (= (select %s j) (select (select %s %s) j))) :pattern ((select %s j))))", it.lo, it.hi, ri, st.mi, it.ref, ri))
 			vc.assume(st, fmt.Sprintf("(forall ((j Int)) (! (=> (or (< j %s) (>= j %s)) (= (select %s j) (select (select %s %s) j))) :pattern ((select %s j))))", it.lo, it.hi, rr, st.mr, it.ref, rr))
-			st.mi = vc.def("MI", memSort, fmt.Sprintf("(store %s %s %s)", st.mi, it.ref, ri))
-			st.mr = vc.def("MR", memSort, fmt.Sprintf("(store %s %s %s)", st.mr, it.ref, rr))
+			st.mi = vc.storeRow("MI", st.mi, it.ref, ri)
+			st.mr = vc.storeRow("MR", st.mr, it.ref, rr)
 		}
 	}
 	for _, g := range ghosts {
@@ -841,7 +914,7 @@ func (vc *VC) rangeWrite(st *State, dst, start, count, src, sstart string) {
 		row := vc.fresh("row", "(Array Int Int)")
 		vc.assume(st, fmt.Sprintf("(forall ((j Int)) (! (= (select %s j) (ite (and (<= %s j) (< j (+ %s %s))) (select (select %s %s) (+ %s (- j %s))) (select (select %s %s) j))) :pattern ((select %s j))))",
 			row, start, start, count, *cur, src, sstart, start, *cur, dst, row))
-		*cur = vc.def(which, memSort, fmt.Sprintf("(store %s %s %s)", *cur, dst, row))
+		*cur = vc.storeRow(which, *cur, dst, row)
 	}
 }
 
